@@ -28,6 +28,9 @@ theorem Clean.sub {α γ : Type} {g : Parser β α} {f : α → γ} (hg : Clean 
 theorem Clean.okFn {α : Type} (r : List β) (f : List β → α) : Clean (fun i => Res.ok r (f i)) := by
   intro i; simp
 
+/-- the remainder of a successful parse is not longer than the input -/
+def Suffix' {α : Type} (p : Parser β α) : Prop := ∀ i r v, p i = .ok r v → r.length ≤ i.length
+
 /-- closure-rule prover for `Clean` goals; extended with `macro_rules` after each theorem -/
 syntax "clean_step" : tactic
 macro_rules | `(tactic| clean_step) => `(tactic| first
@@ -609,6 +612,71 @@ theorem parseDtlsMessageCCS_noPanic : NoPanic (parseDtlsMessageCCS : Parser β _
 theorem parseDtlsMessageAlert_noPanic : NoPanic (parseDtlsMessageAlert : Parser β _) := parseDtlsMessageAlert_clean.noPanic
 theorem parseDtlsPlaintextRecord_noPanic : NoPanic (parseDtlsPlaintextRecord : Parser β _) := parseDtlsPlaintextRecord_clean.noPanic
 theorem parseDtlsPlaintextRecords_noPanic : NoPanic (parseDtlsPlaintextRecords : Parser β _) := parseDtlsPlaintextRecords_clean.noPanic
+
+/-! ### Allocation, logical part: every `Vec` built by a repetition has at most as many elements as bytes were consumed
+
+(The byte counts of the allocator are measured on the implementation; what is provable on the model is that the number
+of elements a parser can make the crate allocate is bounded by the input it consumed, never by a declared length.) -/
+
+theorem many0_length_le {α : Type} (f : Parser β α) (i r : List β) (vs : List α) (h : many0 f i = .ok r vs) :
+    vs.length + r.length ≤ i.length := by
+  induction i using many0.induct f generalizing r vs with
+  | case1 i k hf => unfold many0 at h; simp [hf] at h; obtain ⟨h1, h2⟩ := h; subst h1 h2; simp
+  | case2 i n hf => unfold many0 at h; simp [hf] at h
+  | case3 i k hf => unfold many0 at h; simp [hf] at h
+  | case4 i hf => unfold many0 at h; simp [hf] at h
+  | case5 i i1 o hf hlt ih =>
+    unfold many0 at h; simp only [hf, hlt, dite_true] at h
+    cases h2 : many0 f i1 with
+    | ok r2 vs2 =>
+      rw [h2] at h; simp at h
+      have := ih r2 vs2 h2
+      rw [← h.1, ← h.2]; simp; omega
+    | _ => rw [h2] at h; simp at h
+  | case6 i i1 o hf hlt => unfold many0 at h; simp [hf, hlt] at h
+
+theorem many1Loop_length_le {α : Type} (f : Parser β α) (i r : List β) (vs : List α) (h : many1Loop f i = .ok r vs) :
+    vs.length + r.length ≤ i.length := by
+  induction i using many1Loop.induct f generalizing r vs with
+  | case1 i k hf => unfold many1Loop at h; simp [hf] at h; obtain ⟨h1, h2⟩ := h; subst h1 h2; simp
+  | case2 i n hf => unfold many1Loop at h; simp [hf] at h
+  | case3 i k hf => unfold many1Loop at h; simp [hf] at h
+  | case4 i hf => unfold many1Loop at h; simp [hf] at h
+  | case5 i i1 o hf hlt ih =>
+    unfold many1Loop at h; simp only [hf, hlt, dite_true] at h
+    cases h2 : many1Loop f i1 with
+    | ok r2 vs2 =>
+      rw [h2] at h; simp at h
+      have := ih r2 vs2 h2
+      rw [← h.1, ← h.2]; simp; omega
+    | _ => rw [h2] at h; simp at h
+  | case6 i i1 o hf hlt => unfold many1Loop at h; simp [hf, hlt] at h
+
+/-- a record payload of `n` bytes yields at most `n + 1` messages (ChangeCipherSpec / alert / handshake lists) -/
+theorem many1_length_le {α : Type} (f : Parser β α) (hs : Suffix' f) (i r : List β) (vs : List α) (h : many1 f i = .ok r vs) :
+    vs.length ≤ i.length + 1 := by
+  unfold many1 at h
+  cases hf : f i with
+  | ok i1 o =>
+    rw [hf] at h; simp only at h
+    cases h2 : many1Loop f i1 with
+    | ok r2 vs2 =>
+      rw [h2] at h; simp at h
+      have := many1Loop_length_le f i1 r2 vs2 h2
+      have := hs i i1 o hf
+      rw [← h.2]; simp; omega
+    | _ => rw [h2] at h; simp at h
+  | _ => rw [hf] at h; simp at h
+
+/-- the manual u16 list decoders return exactly len/2 elements -/
+theorem chunks2_length : ∀ (l : List β) (v : List Nat), chunks2 l = some v → 2 * v.length = l.length
+  | [], v, h => by simp [chunks2] at h; subst h; rfl
+  | [_], v, h => by simp [chunks2] at h
+  | a :: b :: r, v, h => by
+    simp only [chunks2, Option.map_eq_some_iff] at h
+    obtain ⟨v', hv', rfl⟩ := h
+    have := chunks2_length r v' hv'
+    simp; omega
 
 /-! ### The defragmenter never panics, for any payload parser that does not and any history -/
 
